@@ -195,9 +195,21 @@ Qed.
 
 (* ---- the deadline context ---- *)
 
+Lemma ctx_ok_setdeadline me m g : ctx_ok (i_setdeadline me m g).
+Proof. destruct m; unfold ctx_ok; cbn; intros; auto; discriminate. Qed.
+
+Lemma ctx_ok_fire j g : ctx_ok g -> ctx_ok (i_fire j g).
+Proof.
+  intro H. unfold i_fire. destruct (i_gen g) as [k|]; [|exact H].
+  destruct (Nat.eqb k j && i_armed g); [|exact H].
+  unfold ctx_ok in *. cbn. intros _. destruct (i_done g); auto.
+Qed.
+
 Lemma ctx_ok_step : forall s i s', ctx_ok (s_i s) -> step s i = Some s' -> ctx_ok (s_i s').
 Proof.
-  intros s i s' Hc H. destr_step H; try exact Hc; unfold ctx_ok in *; cbn; intros; auto; try discriminate.
+  intros s i s' Hc H. destr_step H; try exact Hc; cbn [s_i];
+    try apply ctx_ok_setdeadline; try (apply ctx_ok_fire; exact Hc);
+    unfold ctx_ok in *; cbn; intros; auto; try discriminate.
   destruct (i_done (s_i s)); auto.
 Qed.
 
